@@ -34,6 +34,10 @@ def plan(tier):
     if tier == 'thorough':
         fam(5, 'A3', 'full', 2)
         fam(6, 'A2', 'lite', 2)
+    for pat in ('not-and', 'cmp', 'or3'):
+        for L in space.DEEP_LENGTHS[tier][:2]:
+            for st_ in ('fwd', 'rev'):
+                t.append({'kind': 'deep', 'pattern': pat, 'L': L, 'storage': st_})
     from vmc import history
 
     for st in HIST_STARTS:
@@ -52,7 +56,7 @@ def plan(tier):
 
 def describe(tier):
     return {
-        'rule': 'dag: every circuit shape F(n,k,{1,2,3-operand gate}) with n+k=p nodes (inputs + gates, operand tuples '
+        'rule': 'deep: chains of 1200/3000 gates (three patterns, both storage orders; one input with a thousand users) from six start sets; hist: the traversal oracle on every state one (thorough: two) public call(s) away from five start states, no state merging; dag: every circuit shape F(n,k,{1,2,3-operand gate}) with n+k=p nodes (inputs + gates, operand tuples '
         'with repeats, disconnected parts) x {dfs,bfs} x inverse x start_gates (full: None, every sequence of <=2 '
         'nodes, every subset; lite: None, singletons, all nodes) x topsort_unvisited, all hooks traced (with start_gates=None and topsort_unvisited the enter hook reads the state of every gate from the mapping it is given); top_sort '
         'both directions; the topsort_unvisited runs are repeated on the same circuit with reversed (non-topological) storage order. cyc: every directed graph on m<=4 gate nodes with 1-2 operands each over the gate nodes '
@@ -85,6 +89,8 @@ def start_sets(labs, mode):
             for s in itertools.combinations(labs, r):
                 if len(s) != 1:
                     out.append(list(s))
+    elif mode == 'few':
+        out += [[labs[0]], [labs[len(labs) // 2]], [labs[-1]], [labs[-1], labs[0]], list(labs)]
     else:
         out += [[l] for l in labs] + [list(labs)]
     return out
@@ -217,6 +223,12 @@ def check_traversals(acc, c, net, labs, starts_mode, base, only=None, scrambled=
 HIST_STARTS = ('S1', 'S2', 'S4', 'S6', 'S7')
 
 
+def check_deep(acc, pattern, L, storage):
+    """traversals of a chain deeper than the recursion limit (and of a node with hundreds of users: x1)"""
+    c, net = space.deep_chain(pattern, L, storage)
+    check_traversals(acc, c, net, list(net.gates), 'few', {'deep_chain': pattern, 'length': L, 'storage': storage}, scrambled=False)
+
+
 def hist_monitor(c, start_name, hist, acc):
     try:
         net = refmodel.abstract(c)
@@ -281,6 +293,8 @@ def check_cyc(m, first, acc, only=None, outs_mode='all'):
 
 
 def run_task(task, acc):
+    if task['kind'] == 'deep':
+        return check_deep(acc, task['pattern'], task['L'], task['storage'])
     if task['kind'] == 'hist':
         from vmc import history
         from vmc.props.c14 import _NeverSeen
@@ -298,6 +312,8 @@ def run_task(task, acc):
 def replay(case, acc):
     if 'task' in case:
         return run_task(case['task'], acc)
+    if 'deep_chain' in case:
+        return check_deep(acc, case['deep_chain'], case['length'], case['storage'])
     if 'history' in case:
         from vmc import history
 
